@@ -5,7 +5,7 @@ from vf.core import Suite, coq_list
 from vf.gen import rbytes, rlen, pick_weighted, all_strings
 
 ID = "C48"
-THEOREMS = ["C48_git_reads_ours", "C48_git_reads_ours_nonvacuous",
+THEOREMS = ["C48_git_reads_ours", "C48_git_reads_ours_unguarded_refuted", "C48_git_reads_ours_nonvacuous",
             "C48_bool_eq_true_refuted", "C48_bool_eq_true_partial", "C48_bool_eq_true_sound",
             "C48_bool_ne_false_refuted", "C48_bool_ne_false_partial",
             "C48_bool_fold_true_refuted", "C48_bool_fold_true_partial",
@@ -260,7 +260,7 @@ class Encode(Suite):
     go_cmd = "c48"
     coq_imports = "From GoGit Require Import Model.ConfigEnc."
     quick_n = 200
-    thorough_n = 3000
+    thorough_n = 1500
     coq_chunk = 110
 
     def gen_opts(self, rng, vb=None):
@@ -577,7 +577,7 @@ class Decode(Suite):
     name = "decode"
     go_cmd = "c48"
     quick_n = 320
-    thorough_n = 6000
+    thorough_n = 2500
 
     def gen(self, rng, n, tier):
         cases = []
@@ -738,23 +738,29 @@ class Interp(Suite):
     name = "interp"
     go_cmd = "c48"
     coq_imports = "From GoGit Require Import Model.ConfigEnc."
-    quick_n = 240
-    thorough_n = 2500
-    coq_chunk = 130
+    quick_n = 120
+    thorough_n = 1500
+    coq_chunk = 170
 
     def mk(self, kind, v, bucket):
         hdr, key, _, _ = KINDS[kind]
         f = hdr + b"\n\t" + key + (b"" if v is None else b" = " + py_quote(v)) + b"\n"
         return {"bucket": bucket, "op": "interp", "kind": kind, "v": None if v is None else v.hex(), "file": f.hex()}
 
+    CORE = [b"true", b"false", b"yes", b"no", b"on", b"off", b"True", b"FALSE", b"On", b"oFF", b"YES", b"No", b"", b"0", b"1", b"2",
+            b"-1", b"+1", b"1k", b"010", b"0x10", b"t", b"F", b"2147483648"]
+
     def gen(self, rng, n, tier):
         cases = []
         kinds = sorted(KINDS)
+        # a fixed grid first: every reader call site x every core spelling (a realistic edit touches one word of one reader)
         for k in kinds:
             cases.append(self.mk(k, None, "valueless"))
+            for v in self.CORE:
+                cases.append(self.mk(k, v, "grid"))
         for j in range(n):
             kind = kinds[j % len(kinds)] if rng.random() < 0.5 else rng.choice(["window", "ntfs", "bare", "taggpg", "wtconfig", "filemode"])
-            if rng.random() < 0.75:
+            if rng.random() < 0.7:
                 cases.append(self.mk(kind, rng.choice(POOL), "pool"))
             else:
                 cases.append(self.mk(kind, rbytes(rng, rng.randrange(1, 6), b"01279kKmMgGxXtruefalsyno+- TF"), "random"))
@@ -841,7 +847,7 @@ class Marshal(Suite):
     name = "marshal"
     go_cmd = "c48"
     quick_n = 80
-    thorough_n = 1200
+    thorough_n = 500
 
     def gen(self, rng, n, tier):
         cases = []
